@@ -34,8 +34,9 @@ _IDENTITY = jnp.array([1, 0, 0, 0], dtype=jnp.int32)
 def _matmul_gf2(a: Array, b: Array) -> Array:
     """Compute binary dot products mod 2 as ``a_GTP x b_BP -> b_BGT``.
 
-    Uses float32 matmul (integer matmul does not have BLAS support on CPU)
-    then casts back to uint8.
+    Uses float32 matmul (integer matmul does not have BLAS support on CPU), reduces
+    mod 2 while still in float32 and only then casts to uint8 (the float -> uint8 cast
+    saturates at 255, so casting first would report parity 1 for every sum above 255).
 
     Args:
         a: Parameter bit-masks, shape ``(G, T, P)`` — G graphs, T terms, P parameters.
@@ -48,9 +49,12 @@ def _matmul_gf2(a: Array, b: Array) -> Array:
     G, T, _ = a.shape
     if G * T == 0:
         return jnp.zeros((b.shape[0], G, T), dtype=b.dtype)
-    return (b.astype(jnp.float32) @ a.astype(jnp.float32).reshape(G * T, -1).T).reshape(
-        -1, G, T
-    ).astype(jnp.uint8) % 2
+    return (
+        (b.astype(jnp.float32) @ a.astype(jnp.float32).reshape(G * T, -1).T).reshape(
+            -1, G, T
+        )
+        % 2
+    ).astype(jnp.uint8)
 
 
 @jax.jit
